@@ -74,7 +74,7 @@ def http_cases(ctx, work):
         dpl, sizes_p, stored = hd.build_plain(work, "deep", True, [2, 1, 1], salt=5)
         targets = [("plain", dpl, sizes_p, (1, 0, 0), 2), ("shard", dsh, sizes_s, (1, 1, 0), 7),
                    ("legacy", dleg, sizes_l, (0, 1, 0), 9)]
-        behs = ["NotFound", "ServerError", "Drop", "TruncBody", "ShortRange", "LongRange", "IgnoreRange"]
+        behs = ["NotFound", "ServerError", "Forbidden", "Drop", "TruncBody", "ShortRange", "LongRange", "IgnoreRange"]
         for kind, d, sizes, pos, nreq in targets:
             coords = sd.coords_of(pos, 4, sizes)
             loc = hd.local_read(d, "chunk", coords)
@@ -104,6 +104,29 @@ def http_cases(ctx, work):
                             "calls": [[e["m"], e["path"].split("/")[-1]] for e in log], "exc": cls,
                             "target_read": []}
                     cases.append((case, meta))
+        # file_exists over HTTP: a failing probe must be reported, not answered "absent"
+        for kind, d, sizes, pos, nreq in targets:
+            url = server.url(os.path.relpath(d, work))
+            from neuroglancer_scripts import accessor
+            for b in ["ServerError", "Forbidden", "Drop"]:
+                server.arm({})
+                acc = accessor.get_accessor_for_url(url)
+                server.arm({0: b})
+                outcome = {"st": "returned", "osErr": False, "dataAccess": False}
+                ret, cls = [], ""
+                try:
+                    ret = [1 if acc.file_exists("info") else 0]
+                except Exception as e:
+                    cls = type(e).__name__
+                    outcome = {"st": "raised", "osErr": isinstance(e, OSError),
+                               "dataAccess": isinstance(e, DataAccessError)}
+                log = server.log()
+                case = {"mode": "fail", "fired": any(e["applied"] != "Normal" for e in log),
+                        "optype": "exists", "outcome": outcome, "ret": {"has": bool(ret), "data": ret},
+                        "expRet": [1], "targets": [], "others": []}
+                meta = {"scenario": "http." + kind + ".exists", "plan": {"k": 0, "mode": "fail", "err": b},
+                        "calls": [[e["m"], e["path"].split("/")[-1]] for e in log], "exc": cls, "target_read": []}
+                cases.append((case, meta))
     finally:
         server.stop()
     return cases
